@@ -90,7 +90,9 @@ def expected_spans(n, S, mc, semi, min_len, max_len, complete, nonspecific):
                     spans.add((i2, j, inside(i2, j)))
         out = {s for s in spans if lo <= s[1] - s[0] <= hi}
     if not complete:
-        out.add((0, n, 0))
+        # partial digestion adds the undigested sequence - a span like any other, reporting the sites it contains (none under the
+        # non-specific rule, which reports zero throughout); it is exempt from the length bounds (pinned by the digest() doctest)
+        out.add((0, n, 0 if nonspecific else sum(1 for s_ in set(S) if 0 < s_ < n)))
     return out
 
 
